@@ -14,8 +14,8 @@ import warnings
 from .core import HarnessError, Stats, digest
 
 VERIF_DIR = os.path.dirname(os.path.dirname(os.path.abspath(__file__)))
-REPLAY_OUT = os.path.join(VERIF_DIR, "replays", "out")
-EVIDENCE_DIR = os.path.join(VERIF_DIR, "evidence")
+REPLAY_OUT = os.environ.get("VERIF_REPLAY_OUT") or os.path.join(VERIF_DIR, "replays", "out")
+EVIDENCE_DIR = os.environ.get("VERIF_EVIDENCE_DIR") or os.path.join(VERIF_DIR, "evidence")
 KNOWN_FILE = os.path.join(VERIF_DIR, "known_findings.json")
 
 _ENGINE = None  # set in the parent before fork
